@@ -90,14 +90,20 @@ class Clause(object):
         for x in _ast.walk(node):
             if x is not node and isinstance(x, (_ast.FunctionDef, _ast.AsyncFunctionDef)) and x.name not in ('select', 'prepare_pattern', 'preexec_wrapper', 'write_to_stdout'):
                 names.add(x.name)
-        if not names:
-            return set()
+        # a local variable that holds something callable (`read_child = super(..).read_nonblocking`, a function handed in as a parameter of a
+        # non-public function) and is called: what is called there is not known to the rules either
+        bound = set()
+        for x in _ast.walk(node):
+            if isinstance(x, _ast.Name) and isinstance(x.ctx, _ast.Store):
+                bound.add(x.id)
         out = set()
         for x in _ast.walk(node):
             if isinstance(x, _ast.Call):
                 nm = x.func.attr if isinstance(x.func, _ast.Attribute) else (x.func.id if isinstance(x.func, _ast.Name) else None)
                 if nm in names:
                     out.add(nm)
+                elif isinstance(x.func, _ast.Name) and x.func.id in bound and x.func.id not in ('select', 'prepare_pattern', 'preexec_wrapper', 'write_to_stdout'):
+                    out.add(x.func.id)
         return out
 
     def ok(self, fi, node, what, kind='path', tag=None):
